@@ -285,6 +285,16 @@ def load_spec(pid):
     if not os.path.exists(p): raise SystemExit('no harness spec for ' + pid)
     sp = importlib.util.spec_from_file_location('spec_' + pid, p); mod = importlib.util.module_from_spec(sp); sp.loader.exec_module(mod)
     spec = mod.SPEC; spec['_dir'] = d; spec['_mod'] = mod
+    # additional groups written by other authors: harness/<Cxx>/spec_*.py with GROUPS (+ optional BOUNDS / OUTSIDE / ASSUMPTIONS)
+    for extra in sorted(os.listdir(d)):
+        if not re.fullmatch(r'spec_\w+\.py', extra): continue
+        sp = importlib.util.spec_from_file_location('spec_%s_%s' % (pid, extra[:-3]), os.path.join(d, extra)); m2 = importlib.util.module_from_spec(sp); sp.loader.exec_module(m2)
+        have = set(g['name'] for g in spec['groups'])
+        for g in m2.GROUPS:
+            if g['name'] in have: raise SystemExit('duplicate group name %s in %s' % (g['name'], extra))
+            spec['groups'].append(g)
+        for k, attr in (('bounds', 'BOUNDS'), ('outside', 'OUTSIDE'), ('assumptions', 'ASSUMPTIONS')):
+            spec[k] = list(spec.get(k, [])) + list(getattr(m2, attr, []))
     return spec
 
 def known_findings(pid):
